@@ -11,6 +11,14 @@ def main():
     module, func, out = sys.argv[1:4]
     args = json.loads(sys.stdin.read() or "{}")
     logging.disable(logging.CRITICAL)
+    # hard deadline of this interpreter (the parent's timeout plus a margin): a shard that the parent
+    # has given up on must not keep a core busy
+    import faulthandler
+    import os
+
+    dl = os.environ.get("VERIF_SHARD_DEADLINE")
+    if dl:
+        faulthandler.dump_traceback_later(int(dl), exit=True)
     from vlib.common import Shard, jsonable
 
     mod = importlib.import_module(module)
